@@ -194,6 +194,36 @@ func fieldByType(base *Term, want string) *Term {
 			}
 		}
 	}
+	if found == nil && curWorld != nil {
+		// a field declared with a module interface that only ever holds one concrete structure (an adapter embedding the
+		// wanted handle: `db database` <- sqlDB{*sql.DB}): the handle inside that structure
+		var hit *Term
+		for i := 0; i < st.NumFields(); i++ {
+			_, conc := curWorld.ifaceFlow(st.Field(i).Type())
+			if conc == nil {
+				continue
+			}
+			ct := conc
+			if p, ok := ct.Underlying().(*types.Pointer); ok {
+				ct = p.Elem()
+			}
+			cs, ok := ct.Underlying().(*types.Struct)
+			if !ok {
+				continue
+			}
+			for j := 0; j < cs.NumFields(); j++ {
+				if typeStr(cs.Field(j).Type()) == want {
+					if hit != nil {
+						return mk("field", "?ambiguous:"+want, 0, nil, base)
+					}
+					hit = mk("field", cs.Field(j).Name(), 0, cs.Field(j).Type(), mk("field", st.Field(i).Name(), 0, st.Field(i).Type(), base))
+				}
+			}
+		}
+		if hit != nil {
+			return hit
+		}
+	}
 	if found == nil {
 		return mk("field", "?missing:"+want, 0, nil, base)
 	}
